@@ -3,8 +3,8 @@ package checks
 import (
 	"bytes"
 	"fmt"
+	"github.com/wrgl/wrgl/pkg/verifrt"
 	"io"
-	"net/http/httptest"
 	"strings"
 	"time"
 
@@ -177,12 +177,40 @@ func c09Fetch(c *mc.Ctx) {
 	if len(stips) > 1 && c.ChooseDev(2) == 1 {
 		stips = stips[len(stips)-1:]
 	}
+	// ... plus, as a deviation, a ref on any further commit of S (a tag on a non-tip commit)
+	if sb := model.Bits(S); len(sb) > len(stips) {
+		if e := c.ChooseDev(1 + len(sb)); e > 0 {
+			dup := false
+			for _, t := range stips {
+				dup = dup || t == sb[e-1]
+			}
+			if !dup {
+				stips = append(stips, sb[e-1])
+			}
+		}
+	}
+	// order in which the finder walks the wanted commits and both sides list their refs (Go maps in
+	// the implementation): sorted, or reversed as a deviation
+	wantRev := c.ChooseDev(2) == 1
 	depth := c.Choose(3)
 	absent := c.ChooseDev(8) // pool tables the client lacks although it has the commit (earlier shallow fetch)
 	haves := []int{256, 1, 2}[c.ChooseDev(3)]
 	tableNeg := c.ChooseDev(2) == 1
 	maxPF := []uint64{0, 1, 4096}[c.ChooseDev(3)]
 	c.Shard()
+	needRewrite("maporder:finder")
+	needRewrite("maporder:finder-refs")
+	needRewrite("maporder:fetch-refs")
+	if wantRev {
+		verifrt.MapPerm = func(site string, m int) []int {
+			p := make([]int, m)
+			for i := range p {
+				p[i] = m - 1 - i
+			}
+			return p
+		}
+		defer func() { verifrt.MapPerm = nil }()
+	}
 	w := newSyncWorld(g, tblOf)
 	sdb := w.populate(S, 0)
 	cdb := w.populate(C, absent)
@@ -193,15 +221,13 @@ func c09Fetch(c *mc.Ctx) {
 	for j, t := range tipsOf(g, C) {
 		crs.Set(fmt.Sprintf("heads/c%d", j), w.sums[t])
 	}
-	desc := fmt.Sprintf("parents=%v tables=%v server has %v (refs on %v) client has %v (tables absent at client: %v) depth=%d havesPerRoundTrip=%d tableNegotiation=%v maxPackfileSize=%d",
-		g.Parents, tblOf, model.Bits(S), stips, model.Bits(C), model.Bits(uint64(absent)), depth, haves, tableNeg, maxPF)
+	desc := fmt.Sprintf("parents=%v tables=%v server has %v (refs on %v) client has %v (tables absent at client: %v) depth=%d havesPerRoundTrip=%d tableNegotiation=%v maxPackfileSize=%d wantsWalkedInReverse=%v",
+		g.Parents, tblOf, model.Bits(S), stips, model.Bits(C), model.Bits(uint64(absent)), depth, haves, tableNeg, maxPF, wantRev)
 	c.Logf("%s", desc)
 	srv := refsrv.New(sdb, srs)
 	srv.TableNegotiation = tableNeg
 	srv.MaxPackfileSize = maxPF
-	ts := httptest.NewServer(srv)
-	defer ts.Close()
-	client, err := apiclient.NewClient(ts.URL, logr.Discard())
+	client, err := apiclient.NewClient("http://refsrv.invalid", logr.Discard(), apiclient.WithTransport(refsrv.Transport(srv)))
 	if err != nil {
 		panic(err)
 	}
@@ -291,7 +317,20 @@ func c09Push(c *mc.Ctx) {
 	tip := ctips[c.Choose(len(ctips))]
 	srvTablesAbsent := c.ChooseDev(8) // the remote holds some commits without their table
 	maxPF := []uint64{0, 1, 4096}[c.ChooseDev(3)]
+	mapRev := c.ChooseDev(2) == 1 // order of the candidate tables and ref lists (Go maps in the implementation)
 	c.Shard()
+	needRewrite("maporder:push-tables")
+	needRewrite("maporder:finder-refs")
+	if mapRev {
+		verifrt.MapPerm = func(site string, m int) []int {
+			p := make([]int, m)
+			for i := range p {
+				p[i] = m - 1 - i
+			}
+			return p
+		}
+		defer func() { verifrt.MapPerm = nil }()
+	}
 	w := newSyncWorld(g, tblOf)
 	cdb := w.populate(C, 0)
 	sdb := w.populate(S, srvTablesAbsent)
@@ -302,13 +341,11 @@ func c09Push(c *mc.Ctx) {
 	for j, t := range ctips {
 		crs.Set(fmt.Sprintf("heads/c%d", j), w.sums[t])
 	}
-	desc := fmt.Sprintf("parents=%v tables=%v local has %v remote has %v (tables absent at remote: %v); push node %d to heads/p; maxPackfileSize=%d",
-		g.Parents, tblOf, model.Bits(C), model.Bits(S), model.Bits(uint64(srvTablesAbsent)), tip, maxPF)
+	desc := fmt.Sprintf("parents=%v tables=%v local has %v remote has %v (tables absent at remote: %v); push node %d to heads/p; maxPackfileSize=%d mapOrderReversed=%v",
+		g.Parents, tblOf, model.Bits(C), model.Bits(S), model.Bits(uint64(srvTablesAbsent)), tip, maxPF, mapRev)
 	c.Logf("%s", desc)
 	srv := refsrv.New(sdb, srs)
-	ts := httptest.NewServer(srv)
-	defer ts.Close()
-	client, err := apiclient.NewClient(ts.URL, logr.Discard())
+	client, err := apiclient.NewClient("http://refsrv.invalid", logr.Discard(), apiclient.WithTransport(refsrv.Transport(srv)))
 	if err != nil {
 		panic(err)
 	}
@@ -392,12 +429,12 @@ func init() {
 	register(&mc.Check{
 		ID:    "C09",
 		Level: "exploration",
-		Rule: "fetch: every commit DAG of 1..3 (thorough 4) nodes x every ancestor-closed set held by the server x every ancestor-closed set held by the client (ahead, behind, diverged, unrelated, equal all arise) x depth 0..2, completely; crossed with up to d deviations over: table assignment from a pool that shares blocks, server refs on all tips / newest tip, tables absent at the client (earlier shallow fetch), haves per round trip {256,1,2}, server-side table negotiation, max packfile size {default,1,4096}. " +
-			"The real UploadPackSession talks over loopback HTTP to a reference server assembled from the repository's own finder/sender/receiver. Oracle: fetch succeeds; every ancestor of every advertised tip exists locally, tables within the depth are present and pass the structural oracle; objects present on both sides are byte-identical; an immediately repeated fetch transfers 0 objects and changes nothing. " +
+		Rule: "fetch: every commit DAG of 1..3 (thorough 4) nodes x every ancestor-closed set held by the server x every ancestor-closed set held by the client (ahead, behind, diverged, unrelated, equal all arise) x depth 0..2, completely; crossed with up to d deviations over: table assignment from a pool that shares blocks, server refs on all tips / newest tip / additionally on any non-tip commit, the order in which the finder walks the wanted commits, tables absent at the client (earlier shallow fetch), haves per round trip {256,1,2}, server-side table negotiation, max packfile size {default,1,4096}. " +
+			"The real UploadPackSession talks HTTP (in-process round tripper, no sockets) to a reference server assembled from the repository's own finder/sender/receiver. Oracle: fetch succeeds; every ancestor of every advertised tip exists locally, tables within the depth are present and pass the structural oracle; objects present on both sides are byte-identical; an immediately repeated fetch transfers 0 objects and changes nothing. " +
 			"push: same universe, the real ReceivePackSession pushes a local tip to a new remote ref (remote possibly holding commits without tables): the remote must end with the full history incl. tables, identical objects, and a repeated push transfers nothing. non-trivial = at least one object transferred; distinct by case description",
 		Assumptions: []string{"the server half is /verif's reference assembly of the repository's own components (refsrv); auth, proxies and HTTP/2 stream errors are not modelled", "commits that the receiving side already held without their table before the operation are not promised to be completed by it"},
 		Harnesses: []*mc.Harness{
-			{Name: "fetch-sessions", Body: c09Fetch, DevBound: map[string]int{"quick": 1, "thorough": 2}, Budget: map[string]time.Duration{"quick": 75 * time.Second, "thorough": 14 * time.Minute}},
+			{Name: "fetch-sessions", Body: c09Fetch, DevBound: map[string]int{"quick": 2, "thorough": 3}, Budget: map[string]time.Duration{"quick": 75 * time.Second, "thorough": 14 * time.Minute}},
 			{Name: "push-sessions", Body: c09Push, DevBound: map[string]int{"quick": 1, "thorough": 2}, Budget: map[string]time.Duration{"quick": 60 * time.Second, "thorough": 10 * time.Minute}},
 		},
 	})
